@@ -82,17 +82,20 @@ def build_harness(race=False):
     return out, log
 
 
-def run_harness(prop, seed, tier, extra_args=(), timeout=1200, binary=None):
+def run_harness(prop, seed, tier, extra_args=(), timeout=1200, binary=None, only=None):
     hb = binary or build_harness()[0]
     d = os.path.join(scratch(), "run-" + prop)
     os.makedirs(d, exist_ok=True)
     cases = os.path.join(d, "cases.jsonl")
     meta = os.path.join(d, "meta.json")
     cmd = [hb, "-prop", prop, "-seed", str(seed), "-tier", tier, "-out", cases, "-meta", meta] + list(extra_args)
-    rc, log, wall = sh(cmd, cwd=d, env=GOENV, timeout=timeout)
+    rc, log, wall = sh(cmd, cwd=d, env=dict(GOENV, VERIF_ONLY=only or ""), timeout=timeout)
     m = {}
     if os.path.exists(meta):
         m = json.load(open(meta))
+    infl = os.path.join(d, "inflight.txt")   # the input a harness was running when it died
+    if rc != 0 and os.path.exists(infl):
+        m["inflight"] = open(infl, errors="replace").read()
     cl = []
     if os.path.exists(cases):
         with open(cases, "rb") as fh:
